@@ -213,3 +213,83 @@ type Bool struct{ v atomic.Bool }
 func (a *Bool) Load() bool        { Yield(-1); return a.v.Load() }
 func (a *Bool) Store(x bool)      { Yield(-1); a.v.Store(x) }
 func (a *Bool) Swap(x bool) bool  { Yield(-1); return a.v.Swap(x) }
+
+// Cond replaces sync.Cond.
+type Cond struct {
+	L       sync.Locker
+	waiters int
+	signals int
+}
+
+func NewCond(l sync.Locker) *Cond { return &Cond{L: l} }
+
+func (c *Cond) Wait() {
+	s := cur
+	if s == nil {
+		panic("vrt.Cond outside a scheduler is not supported")
+	}
+	if s.dead {
+		runtime.Goexit()
+	}
+	c.waiters++
+	c.L.Unlock()
+	s.park(&pendingOp{ready: func() bool { return c.signals > 0 }, desc: "cond.Wait"})
+	c.signals--
+	c.waiters--
+	c.L.Lock()
+}
+
+func (c *Cond) Signal() {
+	if Dead() {
+		return
+	}
+	if c.waiters > c.signals {
+		c.signals++
+	}
+}
+
+func (c *Cond) Broadcast() {
+	if Dead() {
+		return
+	}
+	c.signals = c.waiters
+}
+
+// Uint64 / Pointer / Value
+type Uint64 struct{ v atomic.Uint64 }
+
+func (a *Uint64) Load() uint64          { Yield(-1); return a.v.Load() }
+func (a *Uint64) Store(x uint64)        { Yield(-1); a.v.Store(x) }
+func (a *Uint64) Add(d uint64) uint64   { Yield(-1); return a.v.Add(d) }
+func (a *Uint64) Swap(x uint64) uint64  { Yield(-1); return a.v.Swap(x) }
+func (a *Uint64) CompareAndSwap(o, n uint64) bool {
+	Yield(-1)
+	return a.v.CompareAndSwap(o, n)
+}
+
+func (a *Int64) CompareAndSwap(o, n int64) bool { Yield(-1); return a.v.CompareAndSwap(o, n) }
+func (a *Uint32) CompareAndSwap(o, n uint32) bool {
+	Yield(-1)
+	return a.v.CompareAndSwap(o, n)
+}
+func (a *Bool) CompareAndSwap(o, n bool) bool { Yield(-1); return a.v.CompareAndSwap(o, n) }
+
+type Value struct{ v atomic.Value }
+
+func (a *Value) Load() any       { Yield(-1); return a.v.Load() }
+func (a *Value) Store(x any)     { Yield(-1); a.v.Store(x) }
+func (a *Value) Swap(x any) any  { Yield(-1); return a.v.Swap(x) }
+func (a *Value) CompareAndSwap(o, n any) bool {
+	Yield(-1)
+	return a.v.CompareAndSwap(o, n)
+}
+
+type Pointer[T any] struct{ v atomic.Pointer[T] }
+
+func (a *Pointer[T]) Load() *T       { Yield(-1); return a.v.Load() }
+func (a *Pointer[T]) Store(x *T)     { Yield(-1); a.v.Store(x) }
+func (a *Pointer[T]) Swap(x *T) *T   { Yield(-1); return a.v.Swap(x) }
+func (a *Pointer[T]) CompareAndSwap(o, n *T) bool {
+	Yield(-1)
+	return a.v.CompareAndSwap(o, n)
+}
